@@ -80,6 +80,29 @@ def _b_stt(step, env):
                                    transform=lambda v: v)
 
 
+@core.builder('c02_load_csv_mixed')
+def _b_load_csv_mixed(step, env):
+    """A delimited file whose 'code' column is mostly digits but not only (bin labels, part numbers): text, not integers."""
+    import os
+    p = os.path.join(env.scratch, 'mixed-%d.csv' % env.pos)
+    with open(p, 'w') as f:
+        f.write('code,qty,when\n')
+        for i in range(101, 111):
+            f.write('%d,%d,2020-01-%02d\n' % (i, i % 7, i - 100))
+        f.write('11A,3,2020-01-11\nB12,4,n/a\n')
+    return core.dataflows.load(p, name='mixed%d' % env.pos)
+
+
+@core.builder('c02_gen_late')
+def _b_gen_late(step, env):
+    def gen():
+        # 'late' is null throughout the 100-row inference sample and numeric afterwards, 'odd' holds values of Python types
+        # the inference has no name for: the declared types must admit what the rows carry
+        for i in range(130):
+            yield {'n': i, 'late': None if i < 120 else i, 'odd': datetime.timedelta(seconds=i) if i % 2 else None}
+    return gen()
+
+
 @core.builder('c02_iter')
 def _b_iter(step, env):
     return [{'i': 7, 'when': datetime.datetime(2021, 5, 6, 7, 8, 9), 'tags': ['a']}, {'i': None, 'when': None, 'tags': []}]
@@ -157,6 +180,9 @@ SYMS = {
     'update_schema': {'op': 'update_schema', 'a': [None], 'k': {'missingValues': ['', 'NA']}},
     'update_package': S('update_package', name='pkg', title='T'),
     'iterable': {'op': 'c02_iter'},
+    'gen150': {'op': 'gen150'},
+    'gen_late': {'op': 'c02_gen_late'},
+    'load_csv_mixed': {'op': 'c02_load_csv_mixed'},
     'sources': {'op': 'sources2'},
     'load_tuple': {'op': 'load_tuple'},
     'dump_to_path': S('dump_to_path', {'$path': 'dump'}),
@@ -177,6 +203,12 @@ def check_path(path, init='std'):
     """Returns (violations[(oracle, what)], outcome, expandable)."""
     res = run_path(path, 'datastream', init)
     if res[0] == 'exc':
+        if len(path) == 1 and init == 'std':
+            # every symbol of the alphabet is well-typed on the conforming input by construction (vacuity audit): a single
+            # built-in step over such data must not fail
+            e0 = res[1]
+            return [('rejected-well-typed', 'Flow(%s) over schema-conforming data fails: %s: %s' %
+                     (path[0], core.exc_sig(e0), str(e0)[:160].replace('\n', ' ')))], 'rejected', False
         return [], 'rejected', False
     label = 'Flow(%s%s)' % ('<resources named res_3, res_4>, ' if init == 'renamed' else '', ', '.join(path))
     viol = e1.invariant(res[1], label)
